@@ -81,12 +81,14 @@ Example C07_cover_full_witness :
 Proof. exact f6_witness. Qed.
 
 (* What does hold, for ALL histories: from the moment (from,to) is the one request of p, through any interleaving of
-   fresh records (the client delivers a, a+1, ... after Assign (p,a)), stale records below the client's position, records
+   fresh records (the client delivers a, a+1, ... after Assign (p,a)), stale records below the client's position,
+   stragglers of an earlier assignment AHEAD of the position (inside the window, not a multiple of updateRequestEvery), records
    and requests of other partitions, refreshes, ownership changes, revocations, truncation errors with lows <= LB,
    ignored errors, foreign snapshots of other partitions and crashes with hand-off to an instance that read the
    compacted topic: when the request is complete every retained (> LB) record of (from, to] has been emitted; while it
    is outstanding every retained record of (from, broadcast progress] has been emitted.  Excluded ([ok_op]): arbitrary
-   records on p, a second request / foreign snapshot for p, cancel-all, main-consumer assignments. *)
+   records on p (in particular stragglers ON the broadcast grid or beyond to: on the current code they broadcast a
+   progress point / close the request ahead of what was recovered and records ARE lost if a re-assignment follows), a second request / foreign snapshot for p, cancel-all, main-consumer assignments. *)
 Theorem C07_cover_partial : forall cfg p f0 t LB s ops,
   fresh_request s p f0 t -> forallb (ok_op p LB) ops = true ->
   let s' := final_state cfg s ops in
